@@ -14,7 +14,7 @@ import (
 // C18 — static route lookup: fixed precedence and a stable answer (DESIGN.md §4 C18).
 
 var c18Patterns = []string{"a.example.com", "example.com", "*.example.com", "a.example.*", "*", "a*m", "default",
-	"aXexample.com", "*.org", "b.example.org", "a.*.com", "*example.com"}
+	"aXexample.com", "*.org", "b.example.org", "a.*.com", "*example.com", "x.o*g"}
 var c18Hosts = []string{"a.example.com", "b.example.com", "example.com", "aXexample.com", "a.example.org", "b.example.org",
 	"x.org", "am", "a.b.com", "default", "a.example.comX", "zzz", "Xa.example.com", "a-example.com"}
 
@@ -71,6 +71,7 @@ func c18Lookup(c *Ctx, table []string, host string) (map[string]bool, int64) {
 	bounded := &Ctx{Deadline: c.Deadline, NWorkers: 1, Res: newResult()}
 	n, _ := ExploreChoices(bounded, -1, func(prefix []int) []vrt.Point {
 		w := vrt.NewWorld(prefix, vrt.KMap)
+		defer w.Close()
 		w.MapMode = 2
 		pcr := NewPreConfigRoute()
 		for i, p := range table {
@@ -83,14 +84,20 @@ func c18Lookup(c *Ctx, table []string, host string) (map[string]bool, int64) {
 			answers[fmt.Sprintf("%s:%d", h, port)] = true
 		}
 		tr := w.TraceCopy()
-		w.Close()
 		return tr
 	})
 	return answers, n
 }
 
 // c18Eval returns the violated clause ("" if none) for one (table, host).
-func c18Eval(c *Ctx, table []string, host string) (string, string, int64) {
+func c18Eval(c *Ctx, table []string, host string) (cl string, detail string, n int64) {
+	if cr := guard(func() { cl, detail, n = c18EvalInner(c, table, host) }); cr != "" {
+		return "panic", fmt.Sprintf("table %v host %q: %s", table, host, cr), 1
+	}
+	return
+}
+
+func c18EvalInner(c *Ctx, table []string, host string) (string, string, int64) {
 	answers, n := c18Lookup(c, table, host)
 	want := refRoute(table, host)
 	ok := map[string]bool{}
@@ -276,7 +283,7 @@ func c18EndToEnd(c *Ctx) {
 
 func init() {
 	addCheck(&Check{ID: "C18", Level: "exploration",
-		Rule:   "all route tables of <=4 (thorough <=5) entries over a 12-pattern universe x 14 hosts, each lookup executed under every map iteration order (all permutations, explorer choice); non-trivial = at least one entry matches; plus port rule table and end-to-end lookups by To host",
+		Rule:   "all route tables of <=4 (thorough <=5) entries over a 13-pattern universe (incl. equal-length overlapping wildcards) x 14 hosts, each lookup executed under every map iteration order (all permutations, explorer choice); non-trivial = at least one entry matches; plus port rule table and end-to-end lookups by To host",
 		Assume: []string{"Go's regexp package is trusted for nothing: the reference matcher is an independent recursive wildcard matcher"},
 		Run:    c18Run,
 		Replay: func(c *Ctx, raw json.RawMessage) string {
